@@ -399,6 +399,13 @@ func (p *Prog) Flatten(anchors map[string]bool) ([]string, error) {
 	}
 	// a pass may enable further inlining in functions visited earlier (a
 	// literal returned by an inlined helper becomes callable by name): repeat
+	type rehomeKey struct {
+		f      *ssa.Function
+		callee string
+	}
+	noRehome := map[rehomeKey]bool{}
+	skippedAt := map[rehomeKey]int{}
+	methodsGen := 0
 	inline := func() error {
 		for pass, changed := 0, true; changed && pass < 6; pass++ {
 			changed = false
@@ -416,9 +423,15 @@ func (p *Prog) Flatten(anchors map[string]bool) ([]string, error) {
 								if g, _ := ssa.StaticInlinee(c); g != f && (pick(g) || pickTail(c, g)) {
 									// (left for the next methods pass: a method of a local
 									// struct that stands for a named literal of this function)
-									if g.Parent() == nil && g.Signature.Recv() != nil && len(c.Call.Args) > 0 && methodHint(f, g) != "" {
+									if g.Parent() == nil && g.Signature.Recv() != nil && len(c.Call.Args) > 0 && methodHint(f, g) != "" && !noRehome[rehomeKey{f, g.Name()}] {
 										if a := ssa.LocalStructOf(c.Call.Args[0]); a != nil && a.Parent() == f {
-											continue
+											// (once: if a methods pass has run since and the call is
+											// still here, it cannot stand for a literal)
+											k := rehomeKey{f, g.Name()}
+											if at, seen := skippedAt[k]; !seen || at == methodsGen {
+												skippedAt[k] = methodsGen
+												continue
+											}
 										}
 									}
 									target = c
@@ -470,6 +483,7 @@ func (p *Prog) Flatten(anchors map[string]bool) ([]string, error) {
 	// below then dissolves into the variables the literal had captured)
 	methods := func() (int, error) {
 		n := 0
+		methodsGen++
 		for _, f := range append([]*ssa.Function(nil), funcs...) {
 			if (!anchors[p.AnchorName(f)] && f.Parent() == nil) || len(f.Blocks) == 0 {
 				continue
@@ -515,10 +529,13 @@ func (p *Prog) Flatten(anchors map[string]bool) ([]string, error) {
 					recv = a
 				}
 				if !same || recv == nil {
+					noRehome[rehomeKey{f, callee.Name()}] = true
 					continue
 				}
 				w := f.RehomeMethod(callee, calls, recv)
 				if w == nil {
+					// (it cannot stand for a literal here: inline it like any other)
+					noRehome[rehomeKey{f, callee.Name()}] = true
 					continue
 				}
 				f.Rebuild()
@@ -588,7 +605,16 @@ func (p *Prog) Flatten(anchors map[string]bool) ([]string, error) {
 		if err != nil {
 			return log, err
 		}
-		if n+m+k == 0 {
+		// (a hinted method call left alone by the last inlining pass and not
+		// turned into a literal by this methods pass is inlined now)
+		pending := 0
+		for k2, at := range skippedAt {
+			if at == methodsGen-1 {
+				pending++
+				_ = k2
+			}
+		}
+		if n+m+k+pending == 0 {
 			break
 		}
 		if err := inline(); err != nil {
